@@ -418,7 +418,10 @@ STORE_RE = re.compile(r"(^|::)(_mm(256|512)?_(mask)?store[u]?_(si128|si256|si64|
 
 def divide_every_chunk(rep, prog, rule, floor=6):
     """in-place alpha division treats every chunk"""
-    rep.rule(rule, "in the in-place alpha DIVISION routines every closure that stores a processed chunk "
+    rep.rule(rule, "in the TWO-IMAGE alpha routines (multiply and divide: the destination -- the Resizer's "
+             "scratch image among others -- holds whatever an earlier call left there, so a chunk that is "
+             "not stored is stale content) and "
+             "in the in-place alpha DIVISION routines every closure that stores a processed chunk "
              "(the bodies handed to foreach_with_pre_reading) performs that store on all of its paths: "
              "an early `return` for a chunk whose alphas are all zero ('nothing to divide, nothing to "
              "write back') leaves colours under alpha 0 as they are, while the division primitive "
@@ -427,7 +430,11 @@ def divide_every_chunk(rep, prog, rule, floor=6):
              "MULTIPLICATION for alpha == max, which is why this clause reads the division only.)")
     n = 0
     for f in sorted(prog.fns.values(), key=lambda x: x.id):
-        if f.kind == "closure" or not re.search(r"(^|::)alpha::.*::divide_alpha(_row)?_inplace$", f.name):
+        if f.kind == "closure":
+            continue
+        inplace_div = re.search(r"(^|::)alpha::.*::divide_alpha(_row)?_inplace$", f.name)
+        two_image = re.search(r"(^|::)alpha::.*::(multiply|divide)_alpha(_row)?$", f.name)
+        if not (inplace_div or two_image):
             continue
         for g in f.closures():
             stores = [c for c in g.calls() if STORE_RE.search(c.name or "")]
